@@ -1,5 +1,5 @@
 """C19 — project-level analyses and the redirect-chain analysis (Analysis.tla + RouterMachine histories)."""
-import os
+import os, json
 from vlib import Check, tlc_mc, run_harness, tlc_validate, workdir, build_harness
 
 CLASSES = {
@@ -24,11 +24,27 @@ def analysis_part(c, wd, prop, tier):
         c.add_validation(v, cases_path=cases, behaviours=mc["replays"], boundary=("loop", "reset"), classes=CLASSES[prop], universe=mc["universe"])
 
 
+def units_part(c, wd):
+    """UnitTrace.tla: attribution of effects to units (the applied/seen unit ids the analyses report)"""
+    cases = os.path.join(wd, "units.cases.ndjson")
+    mc = tlc_mc("MC_UnitTrace", "MC_UnitTrace.cfg", wd, workers=4, cases_out=cases, coverage=False)
+    c.add_mc(mc)
+    with open(cases, "a") as f:
+        for case in mc["blobs"].get("FILTERCASES", []):
+            f.write(json.dumps(case) + "\n")
+            mc["replays"] += 1
+    trace = os.path.join(wd, "units.trace.ndjson")
+    run_harness("units", cases, trace)
+    v = tlc_validate("Trace_UnitTrace", "Trace_UnitTrace.cfg", trace, wd, shards=4, boundary=("units",))
+    c.add_validation(v, cases_path=cases, behaviours=mc["replays"], boundary=("units",), classes=CLASSES["C19"])
+
+
 def run(tier):
     c = Check("C19", tier)
     wd = workdir("C19")
     build_harness()
     analysis_part(c, wd, "C19", tier)
+    units_part(c, wd)
     c.assumptions = ["redirect graphs over 2 (quick) / 3 (thorough) project URLs + an external and a host-less target, codes 200/301/302/307/308, hop limits 0..4, both methods, with and without project domains",
                      "project analyses: existing router = inserts of the history, change-set = the fork of RouterMachine (added / updated / deleted), examples = the witness-centred probes; "
                      "outputs compared through hashes of their projection on the observables the property lists (unit_ids_seen as a set, match traces through their route sets)"]
